@@ -85,6 +85,10 @@ def run_workers(prop, tier, seed, nshards, repo, timeout, outdir, replay=None, e
         # CONFIGURATION dimension: one shard in four sees an OpenSSL that does not offer RIPEMD-160 to hashlib
         if (sh + seed) % 4 == 2:
             env["VP_NO_OSSL_RIPEMD"] = "1"
+        # CONFIGURATION dimension: one shard in four runs inside an application that has switched DEBUG logging on (root logger
+        # at DEBUG with a handler that discards): code behind `log.isEnabledFor(DEBUG)` runs there
+        if (sh + seed) % 4 == 1:
+            env["VP_DEBUG_LOGGING"] = "1"
         if extra_env:
             env.update(extra_env)
             env["VP_EXTRA_ENV"] = json.dumps(extra_env, sort_keys=True)
@@ -93,6 +97,9 @@ def run_workers(prop, tier, seed, nshards, repo, timeout, outdir, replay=None, e
                 v = json.load(open(replay))
                 env["PYTHONHASHSEED"] = hash_seed(int(v.get("seed", 0)), int(v.get("shard", 0)))
                 env.pop("VP_NO_OSSL_RIPEMD", None)
+                env.pop("VP_DEBUG_LOGGING", None)
+                if v.get("debug_logging"):
+                    env["VP_DEBUG_LOGGING"] = "1"
                 if v.get("no_ossl_ripemd"):
                     env["VP_NO_OSSL_RIPEMD"] = "1"
                 if v.get("extra_env"):
